@@ -223,17 +223,18 @@ class TableLineageAnalyzer:
                         standard_column = StandardColumn(column_name=from_standard_column.column_name,
                                                          column_idx=column_idx)
                         column_idx += 1
-                        quote_column = QuoteColumn(table_name=standard_table.table_name,
+                        quote_column = QuoteColumn(table_name=column.value.table_name,
                                                    column_name=from_standard_column.column_name)
                         result.append((standard_column, [quote_column]))
                 else:  # 没有表名的通配符
-                    for standard_table in table_name_analyzer.get_all_standard_table():
+                    for alias_name in table_name_analyzer.get_all_table_name():
+                        standard_table = table_name_analyzer.get_standard_table(alias_name)
                         table_lineage = table_lineage_storage.get_table_lineage(standard_table)
                         for from_standard_column in table_lineage.get_all_standard_columns():
                             standard_column = StandardColumn(column_name=from_standard_column.column_name,
                                                              column_idx=column_idx)
                             column_idx += 1
-                            quote_column = QuoteColumn(table_name=standard_table.table_name,
+                            quote_column = QuoteColumn(table_name=alias_name,
                                                        column_name=from_standard_column.column_name)
                             result.append((standard_column, [quote_column]))
             elif isinstance(column.value, core.ASTColumnNameExpression):  # 直接使用字段的情况
